@@ -41,4 +41,11 @@ theorem C05_gen_emptyBodyRejectedInParseTry : Generated.emptyBodyRejectedInParse
 /-- `loads` hands the body to the parser as it is: the verdict is that of the whole text. -/
 theorem C05_gen_loadsParsesWholeBody : Generated.loadsParsesWholeBody = some true := by decide
 
+/- ===== byte layer (tools/extractors/bytelayer.py) — section added for the byte-level input classes ===== -/
+
+/-- The HTTP handler's text is the strict UTF-8 decoding of the body (`utils.from_bytes`): `ByteBody.bodyVerdict`
+    decodes with `Wire.fromBytes`, so a body that starts with EF BB BF is the malformed text `U+FEFF …`
+    (`C05_body_bom_malformed`). -/
+theorem C05_gen_fromBytesCodec : Generated.fromBytesCodec = some ("utf-8", false) := by decide
+
 end JRV.Props
